@@ -15,7 +15,7 @@ import (
 	"pgregory.net/rapid"
 )
 
-const c10MaxBody = 128 << 10
+const c10MaxBody = 64 << 10 // everything the mutation tests build stays inside the basic 10 s watchdog class
 
 // per-target token dictionaries: inserted, swapped for one another, and used as nesting pairs
 var c10Dict = map[string][]string{
@@ -169,8 +169,8 @@ func c10Mutate(t *rapid.T, target string, doc []byte, others []c10Doc) ([]byte, 
 			pairs := c10Nest[target]
 			pr := pairs[rapid.IntRange(0, len(pairs)-1).Draw(t, "pair")]
 			n := rapid.SampledFrom([]int{1, 2, 8, 13, 15, 64, 511, 513, 2000, 10001, 25000}).Draw(t, "depth")
-			if n*(len(pr[0])+len(pr[1])) > c10MaxBody {
-				n = c10MaxBody / (len(pr[0]) + len(pr[1]) + 1)
+			if n*(len(pr[0])+len(pr[1])) > c10MaxBody/2 {
+				n = c10MaxBody / 2 / (len(pr[0]) + len(pr[1]) + 1)
 			}
 			p := pos("p")
 			e := p
@@ -207,7 +207,7 @@ func c10Mutate(t *rapid.T, target string, doc []byte, others []c10Doc) ([]byte, 
 			b = append([]byte(rapid.SampledFrom(c10Prefixes).Draw(t, "prefix")), b...)
 		case "long": // very long run of one byte (attribute values, names, numbers)
 			p := pos("p")
-			n := rapid.SampledFrom([]int{255, 256, 1023, 2047, 2048, 2049, 4096, 65535, 65536, 100000}).Draw(t, "n")
+			n := rapid.SampledFrom([]int{255, 256, 1023, 2047, 2048, 2049, 4096, 16384, 65535}).Draw(t, "n")
 			ch := rapid.SampledFrom([]byte{'a', '9', ' ', '/', '.', '%', 0xc3, '&', '\\', '\n'}).Draw(t, "ch")
 			b = append(b[:p:p], append(bytes.Repeat([]byte{ch}, n), b[p:]...)...)
 		case "token-run":
@@ -232,6 +232,11 @@ func genC10Direct(t *rapid.T, target string) c10Case {
 	}
 	i := rapid.IntRange(0, len(docs)-1).Draw(t, "doc")
 	body, note := c10Mutate(t, target, docs[i].Data, docs)
+	if target == "pdf" && !bytes.HasPrefix(body, []byte("%PDF-")) && rapid.IntRange(0, 7).Draw(t, "keepmagic") > 0 {
+		// without the magic the sniffer says text/plain and nothing runs: most mutants get it back
+		body = c10Clamp(append([]byte("%PDF-1.4\n"), body...))
+		note += "+magic"
+	}
 	return c10Case{Target: target, Body: body, Note: docs[i].Name + " " + note, MaxHops: 1}
 }
 
